@@ -1,6 +1,9 @@
 import IgrisModel.C16.Model
 import IgrisModel.C16.Wrap
 import IgrisModel.C16.Ext
+import IgrisModel.C16.WrapN
+import IgrisModel.C16.Guard
+import IgrisModel.C16.Delegate
 import IgrisModel.Common.Proto
 open Igris.Proto Igris.C16
 
@@ -86,6 +89,11 @@ inductive St where
   | st (t : STimer)
   /-- stimer with tick values that may lie beyond `LONG_MAX` (read modulo 2^64) -/
   | stW (t : STimerW)
+  /-- `timer_manager_basic<timer_spec<T>>` for a `w`-bit integral `T` (`sgn`: signed); every tick value of
+  the op lines is moved by `off` before it is truncated to `w` bits -/
+  | mgrN (w : Nat) (sgn : Bool) (tsg : Bool) (off : Int) (n : Nat) (m : MgrN w) (cur : BitVec w)
+  /-- four `igris::delegate<void, int>` objects -/
+  | dlg (slots : List Dlg)
 
 def summary (n : Nat) (m : Mgr) (cur : Int) : String :=
   let ts := (List.range n).map fun i =>
@@ -175,14 +183,14 @@ def stepMgr (n : Nat) (m : Mgr) (cur : Int) (un : Option Nat) (op : String) (arg
       else some (.mgr n r.1 now un, "nonterm")
     | _, _ =>
       let cbx : CbX := fun k i => if some i = un then [] else cbXOf rules k i
-      let r := execX cbx driverFuel now 0 m
+      let r := execG cbx driverFuel now 0 m
       match r.2.2 with
       | .done => ret r.1 now ("f=" ++ showFires (vis r.2.1) ++ " " ++ summary n r.1 now)
       | .running => some (.mgr n r.1 now un, "nonterm")
       | .uaf => some (.mgr n r.1 now un, "fault")
   | "qmin", [now] => do
     let now ← now.toInt?
-    some (.mgr n m now un, match m.minimalInterval now with | some d => toString d | Option.none => "fault")
+    some (.mgr n m now un, toString (m.minimalIntervalC 9223372036854775807 now))
   | "q", [now] => do
     let now ← now.toInt?
     some (.mgr n m now un, summary n m now)
@@ -214,6 +222,122 @@ def stepMgrW (n : Nat) (m : MgrW) (cur : W32) (op : String) (args : List String)
     some (.mgrW n m (wr now), summaryW n m (wr now))
   | _, _ => Option.none
 
+def showTick {w : Nat} (sgn : Bool) (x : BitVec w) : String :=
+  if sgn then toString x.toInt else toString x.toNat
+
+def summaryN {w : Nat} (sgn tsg : Bool) (n : Nat) (m : MgrN w) (cur : BitVec w) : String :=
+  let ts := (List.range n).map fun i =>
+    showTick tsg (m.tm i).finish ++ "/" ++ (if i ∈ m.lst then "1" else "0")
+  "t=" ++ ",".intercalate ts ++ " e=" ++ (if m.empty then "1" else "0") ++ " m=" ++
+    (match m.minimalInterval cur with | some d => showTick sgn d | none => "-")
+
+def showFiresN {w : Nat} (sgn : Bool) (fs : List (FireN w)) : String :=
+  if fs.isEmpty then "-" else ",".intercalate (fs.map fun f => toString f.id ++ ":" ++ showTick sgn f.deadline)
+
+def compactN {w : Nat} (n : Nat) (m : MgrN w) : MgrN w :=
+  let arr := ((List.range n).map m.tm).toArray
+  { m with tm := fun i => if i < n then arr.getD i {} else m.tm i }
+
+/-- the callbacks of the base model with every start moved by `off`, truncated to `w` bits -/
+def cbOffN (w : Nat) (off : Int) (cb : Cb) : CbN w := fun k i =>
+  (cb k i).map fun a => match a with
+    | .unplan j => ActionN.unplan j
+    | .plan j s iv => ActionN.plan j (wrN w (s + off)) (wrN w iv)
+
+def stepMgrN (w : Nat) (sgn tsg : Bool) (off : Int) (n : Nat) (m : MgrN w) (cur : BitVec w) (op : String)
+    (args : List String) : Option (St × String) :=
+  let ret (m' : MgrN w) (cur' : BitVec w) (s : String) : Option (St × String) :=
+    some (.mgrN w sgn tsg off n (compactN n m') cur', s)
+  match op, args with
+  | "plan", [i, st, iv] | "plan1", [i, st, iv] => do
+    let i ← i.toNat?; let st ← st.toInt?; let iv ← iv.toInt?
+    let m' := m.plan3 i (wrN w (st + off)) (wrN w iv)
+    ret m' cur (summaryN sgn tsg n m' cur)
+  | "unplan", [i] => do
+    let i ← i.toNat?
+    let m' := m.unplan i
+    ret m' cur (summaryN sgn tsg n m' cur)
+  | "exec", [now, rules] => do
+    let now ← now.toInt?
+    let rules ← parseRules? rules
+    let cb ← cbOf? rules
+    let nw := wrN w (now + off)
+    let r := execLoopN sgn (cbOffN w off cb) nw driverFuel 0 m
+    if r.2.2 then ret r.1 nw ("f=" ++ showFiresN tsg r.2.1 ++ " " ++ summaryN sgn tsg n r.1 nw)
+    else some (.mgrN w sgn tsg off n r.1 nw, "nonterm")
+  | "q", [now] => do
+    let now ← now.toInt?
+    some (.mgrN w sgn tsg off n m (wrN w (now + off)), summaryN sgn tsg n m (wrN w (now + off)))
+  | _, _ => Option.none
+
+/-- target ids of the delegate harness: plain functions 1..3, member functions 11..13 (objects 1..3),
+external functions 21..23 (objects 0..3), functor `operator()` 31..32 (functor objects 41..42) -/
+def showCall : Call → String
+  | .function fn arg => "F" ++ toString fn ++ "(" ++ toString arg ++ ")"
+  | .method fn _ obj arg =>
+    if fn ≥ 30 then "L" ++ toString (fn - 30) ++ "(" ++ toString arg ++ ")"
+    else "M" ++ toString obj ++ "." ++ toString (fn - 10) ++ "(" ++ toString arg ++ ")"
+  | .ext fn obj arg => "X" ++ toString (fn - 20) ++ "[" ++ toString obj ++ "](" ++ toString arg ++ ")"
+
+def showDlg (d : Dlg) (calls : List Call) : String :=
+  "a=" ++ (if d.armed then "1" else "0") ++ " c=" ++ (if calls.isEmpty then "-" else String.join (calls.map showCall))
+
+def stepDlg (sl : List Dlg) (op : String) (args : List String) : Option (St × String) :=
+  let get (a : Nat) : Dlg := sl.getD a {}
+  let put (a : Nat) (d : Dlg) (calls : List Call) : Option (St × String) := some (.dlg (sl.set a d), showDlg d calls)
+  match op, args with
+  | "dnew", [a, "0"] => do let a ← a.toNat?; put a ({} : Dlg).clean []
+  | "dnew", [a, "f", k] => do let a ← a.toNat?; let k ← k.toNat?; put a (Dlg.ofFunction k) []
+  | "dnew", [a, "m", o, k] => do let a ← a.toNat?; let o ← o.toNat?; let k ← k.toNat?; put a (Dlg.ofMethod (10 + k) 0 o) []
+  | "dnew", [a, "x", k, o] => do let a ← a.toNat?; let k ← k.toNat?; let o ← o.toNat?; put a (Dlg.ofExt (20 + k) o) []
+  | "dnew", [a, "l", k] => do let a ← a.toNat?; let k ← k.toNat?; put a (Dlg.ofMethod (30 + k) 0 (40 + k)) []
+  | "dcopy", [a, b] | "dmove", [a, b] => do let a ← a.toNat?; let b ← b.toNat?; put a (get b).copy.copy []
+  | "dclean", [a] => do let a ← a.toNat?; put a (get a).clean []
+  | "dinv", [a, x] => do
+    let a ← a.toNat?; let x ← x.toInt?
+    put a (get a) ((get a).invoke x ++ (get a).invoke x)
+  | "dreset", [a, x] => do
+    let a ← a.toNat?; let x ← x.toInt?
+    let r := (get a).invokeAndReset x
+    put a r.1 r.2
+  | "deq", [a, b] => do
+    let a ← a.toNat?; let b ← b.toNat?
+    some (.dlg sl, if (get a).eq (get b) then "1" else "0")
+  | "dtim", [a, x, n] => do
+    let a ← a.toNat?; let x ← x.toInt?; let n ← n.toInt?
+    -- `timer<int>(dlg, x)` planned at (0, 1), `exec(n)`: one `execute()` = one `dlg(x)` per callback of the model
+    let fires := (execLoop (fun _ _ => []) n driverFuel 0 (Mgr.init.plan3 0 0 1)).2.1
+    put a (get a) (fires.flatMap fun _ => (get a).invoke x)
+  | _, _ => Option.none
+
+/-- what the models embed: `long` and the stimer fields are `BitVec 64` read as signed (`stW`), `planed` / the
+result of `stimer_check` an `int`, `stimer_finish` an unsigned 64-bit value; the managers run as
+`MgrN 64 true` (and `Mgr` over `Int` for in-range values), `MgrN 32 true`, `MgrN 32 false` / `MgrW`; the "never"
+value of `minimal_interval`; a delegate is three 8-byte words (`Dlg`) -/
+def tyName (w : Nat) (sgn : Bool) : String := toString (w / 8) ++ (if sgn then "s" else "u")
+def mgrTypes (w : Nat) (sgn : Bool) : String :=
+  "time=" ++ tyName w sgn ++ ",diff=" ++ tyName w sgn ++ ",never=" ++
+    toString (if sgn then 2 ^ (w - 1) - 1 else 2 ^ w - 1 : Nat)
+def constsLine : String :=
+  "long=" ++ tyName 64 true ++ " stimer.start=" ++ tyName 64 true ++ " stimer.interval=" ++ tyName 64 true ++
+  " stimer.planed=" ++ tyName 32 true ++ " stimer_finish=" ++ tyName 64 false ++ " stimer_check=" ++ tyName 32 true ++
+  " mgr[" ++ mgrTypes 64 true ++ "] i32[" ++ mgrTypes 32 true ++ "] u32[" ++ mgrTypes 32 false ++ "]" ++
+  " u32s[time=" ++ tyName 32 false ++ ",diff=" ++ tyName 32 true ++ ",never=2147483647]" ++
+  " default=int64 delegate=" ++ toString (3 * 8)
+
+/-- the scenario the harness runs before `main()`: plan (0,3) and (0,5), `exec(7)`, `minimal_interval(7)`, `empty()`,
+unplan both, `minimal_interval(7)`, two stimer checks, lock count -/
+def premainLine : String :=
+  let m := (Mgr.init.plan3 0 0 3).plan3 1 0 5
+  let r := execLoop (fun _ _ => []) 7 driverFuel 0 m
+  let m2 := (r.1.unplan 0).unplan 1
+  let t1 : STimerW := stimerPlanN {} (wr64 5250) (wr64 9223372036854775807)
+  let t2 : STimerW := stimerPlanN t1 (wr64 0) (wr64 3)
+  "f=" ++ showFires r.2.1 ++ " m=" ++ toString (r.1.minimalIntervalC 9223372036854775807 7) ++
+    " e=" ++ (if r.1.empty then "1" else "0") ++ " n=" ++ toString (m2.minimalIntervalC 9223372036854775807 7) ++
+    " s=" ++ (if stimerCheckW t1 (wr64 5000) then "1" else "0") ++ (if stimerCheckW t2 (wr64 3) then "1" else "0") ++
+    " l=0"
+
 def stepST (t : STimer) (op : String) (args : List String) : Option (St × String) :=
   match op, args with
   | "sinit", [a, b] => do
@@ -240,13 +364,13 @@ def stepSTW (t : STimerW) (op : String) (args : List String) : Option (St × Str
   match op, args with
   | "sinit", [a, b] => do
     let a ← a.toInt?; let b ← b.toInt?
-    let t' : STimerW := ⟨wr64 a, wr64 b, false⟩; some (.stW t', showSTW t')
+    let t' : STimerW := stimerInitN t (wr64 a) (wr64 b); some (.stW t', showSTW t')
   | "splan", [a, b] => do
     let a ← a.toInt?; let b ← b.toInt?
-    let t' : STimerW := ⟨wr64 a, wr64 b, true⟩; some (.stW t', showSTW t')
+    let t' : STimerW := stimerPlanN t (wr64 a) (wr64 b); some (.stW t', showSTW t')
   | "sstart", [a] => do
     let a ← a.toInt?
-    let t' : STimerW := { t with start := wr64 a, planed := true }; some (.stW t', showSTW t')
+    let t' : STimerW := stimerStartN t (wr64 a); some (.stW t', showSTW t')
   | "sswift", [] => let t' := stimerSwiftW t; some (.stW t', showSTW t')
   | "sfinish", [] => some (.stW t, toString (stimerFinishW t).toNat)
   | "scheck", [a] => do
@@ -262,11 +386,28 @@ def stepLine (s : St) (line : String) : St × String :=
   let bad := (s, "bad-op")
   match words line with
   | ["reset", "s"] => (.st {}, "ok")
-  | ["reset", "S"] => (.stW {}, "ok")
+  | ["reset", "S"] | ["reset", "T"] => (.stW {}, "ok")
   | ["reset", "u", n] | ["reset", "U", n] =>
     match n.toNat? with
     | some n => (.mgrW n MgrW.init 0, "ok")
     | Option.none => bad
+  | ["reset", "C"] => (.none, "ok")
+  | ["consts"] => (s, constsLine)
+  | ["premain"] => (s, premainLine)
+  | ["reset", "D"] => (.dlg (List.replicate 4 ({} : Dlg).clean), "ok")
+  | ["reset", "i", n] | ["reset", "I", n] =>
+    match n.toNat? with
+    | some n => (.mgrN 32 true true 0 n MgrN.init 0, "ok")
+    | Option.none => bad
+  | ["reset", "v", n] | ["reset", "V", n] =>
+    -- timer_spec<uint32_t, int32_t>: unsigned ticks, the elapsed time and the interval are int32_t
+    match n.toNat? with
+    | some n => (.mgrN 32 true false 0 n MgrN.init 0, "ok")
+    | Option.none => bad
+  | ["reset", "l", n, off] =>
+    match n.toNat?, off.toInt? with
+    | some n, some off => (.mgrN 64 true true off n MgrN.init (wrN 64 off), "ok")
+    | _, _ => bad
   | ["reset", "z", n] =>
     match n.toNat? with
     | some n => (.mgr n Mgr.init 0 (some (n - 1)), "ok")
@@ -282,6 +423,8 @@ def stepLine (s : St) (line : String) : St × String :=
     | .mgrW n m cur => (stepMgrW n m cur op args).getD bad
     | .st t => (stepST t op args).getD bad
     | .stW t => (stepSTW t op args).getD bad
+    | .mgrN w sgn tsg off n m cur => (stepMgrN w sgn tsg off n m cur op args).getD bad
+    | .dlg sl => (stepDlg sl op args).getD bad
   | _ => bad
 
 def main : IO Unit := run St.none stepLine
